@@ -886,6 +886,14 @@ def gen_C11(rng, tier):
             for form in ('compressed', 'uncompressed', 'unchecked'):
                 cases.append(Case('f.%s.deser_flags.%s 0 %s' % (fld, form, H(v)), builds=('ark',), cls='%s:deser:%s' % (fld, form),
                                   oracle=expect(('ok %s 0' % H(v)) if v < m else 'err-data')))
+        # the constructor from Montgomery limbs: in-range limb arrays denote M * R^-1 mod p in both backends
+        R_ = 1 << (64 * nl)
+        rinv_ = pow(R_, -1, m)
+        for a in (vs + [rng.randrange(m) for _ in range(6)]) if fld == 'fq' else []:
+            Mv = a * R_ % m
+            cases.append(Case('f.%s.from_mont %s' % (fld, ','.join(map(str, limbs_of(Mv, nl)))), cls='%s:from_mont' % fld, oracle=expect(H(a))))
+        for Mv in [0, 1, m - 1, (1 << 64) - 1, 1 << 64, (1 << 32), (1 << 32) - 1] if fld == 'fq' else []:
+            cases.append(Case('f.%s.from_mont %s' % (fld, ','.join(map(str, limbs_of(Mv, nl)))), cls='%s:from_mont:structured' % fld, oracle=expect(H(Mv * rinv_ % m))))
         for a in vs:
             for form in ('le', 'to_bytes', 'ser', 'ser_unc', 'bigint_bytes'):
                 cases.append(Case('f.%s.to_bytes.%s %s' % (fld, form, H(a)), cls='%s:to_bytes' % fld, oracle=expect(H(a))))
